@@ -798,6 +798,14 @@ OBLIGATIONS = [
 ]
 
 
+def have_model(ctx):
+    """The native model driver of component `http` (per-component drivers; older framework: one `iora_model`)."""
+    try:
+        return os.path.exists(ctx.model_bin("http"))
+    except TypeError:
+        return os.path.exists(ctx.model_bin())
+
+
 def gen_all(ctx, quick, scale):
     rng = ctx.rng
     cases = load_corpus()
@@ -830,7 +838,7 @@ def run(ctx: Ctx):
         ctx.cov["obligations"] = len(OBLIGATIONS)
     hb = ctx.build_harness("harness/c15_http.cpp", sanitize=True)
     dist = {}
-    if hb and os.path.exists(ctx.model_bin()):
+    if hb and have_model(ctx):
         cases = gen_all(ctx, quick, scale)
         ctx.log("generated %d cases, %d ops" % (len(cases), sum(len(c["ops"]) for c in cases)))
         res = ctx.lockstep("http", hb, cases, timeout=1500)
